@@ -476,6 +476,28 @@ func check(ctx *pbt.Ctx, c Case) error {
 		ctx.Label("resigned_after_edit")
 	}
 
+	// ---- part 1d: several signatures on one object. After all inputs were signed, one of them
+	// is signed again with another FORKID type; every input must still be accepted (no type
+	// commits to another input's unlocking script), the re-signed one under its new type.
+	if c.Path == "FillAllInputs" && len(tx.Inputs) >= 2 {
+		j := int(c.Salt/7) % len(tx.Inputs)
+		ht2 := []int{0x41, 0x42, 0x43, 0xc1, 0xc2, 0xc3}[int(c.Salt/3)%6]
+		if err := tx.FillInput(context.Background(), &unlocker.Simple{PrivateKey: priv}, bt.UnlockerParams{InputIdx: uint32(j), SigHashFlags: sighash.Flag(ht2)}); err != nil {
+			return fmt.Errorf("signing input %d again with %s after FillAllInputs failed: %v", j, typeName(ht2), err)
+		}
+		sm3 := ref.FromLib(tx)
+		for i := range sm3.In {
+			h := 0x41
+			if i == j {
+				h = ht2
+			}
+			if verr := verify(sm3, i, h, c.AfterGenesis); verr != nil {
+				return fmt.Errorf("after FillAllInputs and signing input %d again with %s, input %d (%s) of the same object is rejected: %v", j, typeName(ht2), i, typeName(h), verr)
+			}
+		}
+		ctx.Label("resigned_one_of_all")
+	}
+
 	// ---- part 2: coverage. One mutation at a time, same unlocking script.
 	d0 := refDigest(sm, s, ht)
 	sawStillValid := false
@@ -649,7 +671,7 @@ func genCase(t *rapid.T) Case {
 
 func TestSignVerifyCommit(t *testing.T) {
 	pbt.Run(t, pbt.Sub[Case]{
-		Name: subName, Quick: 9600, Thorough: 120000,
+		Name: subName, Quick: 24000, Thorough: 240000,
 		Gen:   genCase,
 		Check: check,
 	})
